@@ -53,6 +53,19 @@ def _expr_to_blackbird(expr):
     return str(expr.xreplace(braced))
 
 
+def _scalar_to_blackbird(v):
+    """Format a scalar element of a list-valued argument or option."""
+    if isinstance(v, str):
+        return '"{}"'.format(v)
+    if isinstance(v, (bool, np.bool_)):
+        return "{}".format(bool(v))
+    if isinstance(v, complex):
+        return "{}{}{}j".format(v.real, "+-"[int(v.imag < 0)], np.abs(v.imag))
+    if isinstance(v, sym.Expr):
+        return _expr_to_blackbird(v)
+    return "{}".format(v)
+
+
 def numpy_to_blackbird(A, var_name):
     """Converts a numpy array to a Blackbird script array type.
 
@@ -343,7 +356,11 @@ class BlackbirdProgram:
                     # the expected syntax
                     option_strings = []
                     for k, v in data["options"].items():
-                        if not isinstance(v, str):
+                        if isinstance(v, list):
+                            option_strings.append(
+                                "{}=[{}]".format(k, ", ".join(_scalar_to_blackbird(i) for i in v))
+                            )
+                        elif not isinstance(v, str):
                             option_strings.append("{}={}".format(k, v))
                         else:
                             option_strings.append('{}="{}"'.format(k, v))
@@ -380,7 +397,9 @@ class BlackbirdProgram:
             if len(op["modes"]) == 1:
                 modes = op["modes"][0]
             else:
-                modes = op["modes"]
+                # format the elements one by one: the repr of a list of
+                # NumPy integers is not valid Blackbird
+                modes = "[{}]".format(", ".join(str(m) for m in op["modes"]))
 
             # check if the operation has any arguments
             if "args" in op:
@@ -458,6 +477,12 @@ class BlackbirdProgram:
                     elif isinstance(v, sym.Expr):
                         # keyword argument contains free parameters
                         kwargs.append("{}={}".format(k, _expr_to_blackbird(v)))
+
+                    elif isinstance(v, list):
+                        # list-valued keyword argument; format the elements one by one
+                        kwargs.append(
+                            "{}=[{}]".format(k, ", ".join(_scalar_to_blackbird(i) for i in v))
+                        )
 
                     else:
                         kwargs.append("{}={}".format(k, v))
